@@ -478,3 +478,164 @@ Section Pad.
     unfold superset_b. rewrite forallb_forall. split; intros H v Hv; [apply mem_in | apply mem_in]; auto.
   Qed.
 End Pad.
+
+(* ------------------------------------------------------------ generate: grouping *)
+
+Definition cc_of (r : chart) : cconf := (c_counter r, c_depth r).
+Definition is_stack (r : chart) : bool := (0 <? c_depth r)%Z.
+Definition recs (n : bytes) (l : list chart) : list chart := filter (fun r => beq (c_program r) n) l.
+
+Lemma existsb_filter {A} (f g : A -> bool) l : existsb f (filter g l) = existsb (fun x => g x && f x) l.
+Proof.
+  induction l as [|x l IH]; [reflexivity|]. cbn [filter existsb]. destruct (g x); cbn [existsb andb orb]; rewrite IH; reflexivity.
+Qed.
+
+Lemma recs_app n a b : recs n (a ++ b) = recs n a ++ recs n b.
+Proof. apply filter_app. Qed.
+
+Section Generate.
+  Variable is_valid : bool -> bytes -> bool.
+  Variable vcmp : bool -> bytes -> bytes -> comparison.
+  Variable canonical : bytes -> bytes.
+  Variable prerelease : bytes -> bytes.
+
+  (* premises about version.Compare and semver.Compare: total preorders *)
+  Hypothesis cmp_trans : forall tc a b c,
+    cmp_le (vcmp tc a b) = true -> cmp_le (vcmp tc b c) = true -> cmp_le (vcmp tc a c) = true.
+  Hypothesis cmp_total : forall tc a b, vcmp tc a b = Gt -> cmp_le (vcmp tc b a) = true.
+
+  Notation eligible := (eligible vcmp).
+  Notation min_version := (min_version vcmp).
+  Notation add_to := (add_to vcmp).
+  Notation add_record := (add_record vcmp).
+  Notation group := (group vcmp).
+
+  Lemma elig_min prog a b v :
+    eligible (is_toolchain prog) (min_version prog a b) v
+    = eligible (is_toolchain prog) a v || eligible (is_toolchain prog) b v.
+  Proof.
+    unfold ConfigGen.min_version, ConfigGen.eligible.
+    destruct (is_empty a) eqn:Ea; [reflexivity|]. destruct (is_empty b) eqn:Eb; [cbn; rewrite orb_true_r; reflexivity|].
+    cbn [orb]. set (tc := is_toolchain prog).
+    destruct (vcmp tc a b) eqn:E; rewrite ?Ea, ?Eb; cbn [orb].
+    - destruct (cmp_le (vcmp tc a v)) eqn:E1; [reflexivity|]. cbn [orb].
+      destruct (cmp_le (vcmp tc b v)) eqn:E2; [|reflexivity].
+      rewrite <- E1. apply (cmp_trans tc a b v); [rewrite E; reflexivity | exact E2].
+    - destruct (cmp_le (vcmp tc a v)) eqn:E1; [reflexivity|]. cbn [orb].
+      destruct (cmp_le (vcmp tc b v)) eqn:E2; [|reflexivity].
+      rewrite <- E1. apply (cmp_trans tc a b v); [rewrite E; reflexivity | exact E2].
+    - destruct (cmp_le (vcmp tc b v)) eqn:E2; [rewrite orb_true_r; reflexivity|]. rewrite orb_false_r.
+      destruct (cmp_le (vcmp tc a v)) eqn:E1; [|reflexivity].
+      rewrite <- E2. apply (cmp_trans tc b a v); [apply cmp_total; exact E | exact E1].
+  Qed.
+
+  Definition prog_ok (done : list chart) (p : prog) : Prop :=
+    let rs := recs (p_name p) done in
+    rs <> [] /\
+    p_counters p = map cc_of (filter (fun r => negb (is_stack r)) rs) /\
+    p_stacks p = map cc_of (filter is_stack rs) /\
+    (exists r0 rest, rs = r0 :: rest /\ p_module p = c_module r0) /\
+    (forall v, eligible (is_toolchain (p_name p)) (p_min p) v
+               = existsb (fun r => eligible (is_toolchain (p_name p)) (c_version r) v) rs).
+
+  Definition inv (done : list chart) (ps : list prog) : Prop :=
+    NoDup (map p_name ps) /\
+    (forall r, In r done -> exists p, In p ps /\ p_name p = c_program r) /\
+    (forall p, In p ps -> prog_ok done p).
+
+  Lemma add_to_name r p : p_name (add_to r p) = p_name p.
+  Proof. reflexivity. Qed.
+
+  Lemma add_record_cases r ps :
+    (exists ps1 p ps2, ps = ps1 ++ p :: ps2 /\ p_name p = c_program r /\
+                       add_record r ps = ps1 ++ add_to r p :: ps2)
+    \/ ((forall p, In p ps -> p_name p <> c_program r) /\
+        add_record r ps = ps ++ [add_to r (mkProg (c_program r) (c_module r) (c_version r) [] [])]).
+  Proof.
+    induction ps as [|q ps IH]; cbn [ConfigGen.add_record].
+    - right. split; [intros p []| reflexivity].
+    - destruct (beq (p_name q) (c_program r)) eqn:E.
+      + left. apply beq_eq in E. exists [], q, ps. auto.
+      + apply beq_neq in E. destruct IH as [[ps1 [p [ps2 [E1 [E2 E3]]]]] | [Hno E3]].
+        * left. exists (q :: ps1), p, ps2. rewrite E3, E1. auto.
+        * right. split; [intros p [<-|Hp]; auto | rewrite E3; reflexivity].
+  Qed.
+
+  Lemma recs_other n r done : n <> c_program r -> recs n (done ++ [r]) = recs n done.
+  Proof.
+    intros H. rewrite recs_app. unfold recs at 2. cbn [filter].
+    assert (beq (c_program r) n = false) as -> by (apply beq_neq; congruence). apply app_nil_r.
+  Qed.
+  Lemma recs_same r done : recs (c_program r) (done ++ [r]) = recs (c_program r) done ++ [r].
+  Proof. rewrite recs_app. unfold recs at 2. cbn [filter]. rewrite beq_refl. reflexivity. Qed.
+
+  Lemma prog_ok_other done r p : p_name p <> c_program r -> prog_ok done p -> prog_ok (done ++ [r]) p.
+  Proof. unfold prog_ok. intros H. rewrite (recs_other _ r done H). auto. Qed.
+
+  Lemma prog_ok_same done r p : p_name p = c_program r -> prog_ok done p -> prog_ok (done ++ [r]) (add_to r p).
+  Proof.
+    unfold prog_ok. intros Hn [Hne [Hc [Hs [[r0 [rest [Hr Hm]]] He]]]].
+    rewrite add_to_name, Hn in *. rewrite recs_same. repeat split.
+    - destruct (recs (c_program r) done); discriminate.
+    - cbn [ConfigGen.add_to p_counters]. rewrite filter_app, map_app, <- Hc. cbn [filter]. unfold is_stack.
+      destruct (0 <? c_depth r)%Z; cbn [negb map]; [rewrite app_nil_r|]; reflexivity.
+    - cbn [ConfigGen.add_to p_stacks]. rewrite filter_app, map_app, <- Hs. cbn [filter]. unfold is_stack.
+      destruct (0 <? c_depth r)%Z; cbn [map]; [|rewrite app_nil_r]; reflexivity.
+    - exists r0, (rest ++ [r]). rewrite Hr. split; [reflexivity | exact Hm].
+    - intros v. cbn [ConfigGen.add_to p_min]. rewrite elig_min, He, existsb_app. cbn [existsb]. rewrite orb_false_r. reflexivity.
+  Qed.
+
+  Lemma inv_step done ps r : inv done ps -> inv (done ++ [r]) (add_record r ps).
+  Proof.
+    intros [Hnd [Hcov Hok]].
+    destruct (add_record_cases r ps) as [[ps1 [p [ps2 [E1 [E2 E3]]]]] | [Hno E3]]; rewrite E3.
+    - subst ps. split; [|split].
+      + rewrite map_app in *. cbn [map] in *. rewrite add_to_name. exact Hnd.
+      + intros r' Hin. apply in_app_or in Hin as [Hin|[<-|[]]].
+        * destruct (Hcov r' Hin) as [q [Hq Hqn]]. apply in_app_or in Hq as [Hq|[<-|Hq]].
+          -- exists q. split; [apply in_or_app; left; exact Hq | exact Hqn].
+          -- exists (add_to r p). split; [apply in_or_app; right; left; reflexivity | exact Hqn].
+          -- exists q. split; [apply in_or_app; right; right; exact Hq | exact Hqn].
+        * exists (add_to r p). split; [apply in_or_app; right; left; reflexivity | exact E2].
+      + intros q Hq.
+        assert (forall q', In q' (ps1 ++ ps2) -> p_name q' <> p_name p) as Hdist.
+        { intros q' Hq' Eq. rewrite map_app in Hnd. cbn [map] in Hnd. apply NoDup_remove_2 in Hnd.
+          apply Hnd. rewrite <- map_app, <- Eq. apply in_map. exact Hq'. }
+        apply in_app_or in Hq as [Hq|[<-|Hq]].
+        * apply prog_ok_other; [rewrite <- E2; apply Hdist, in_or_app; left; exact Hq | apply Hok, in_or_app; left; exact Hq].
+        * apply prog_ok_same; [exact E2 | apply Hok, in_or_app; right; left; reflexivity].
+        * apply prog_ok_other; [rewrite <- E2; apply Hdist, in_or_app; right; exact Hq | apply Hok, in_or_app; right; right; exact Hq].
+    - assert (recs (c_program r) done = []) as Hnone.
+      { destruct (recs (c_program r) done) as [|r' l] eqn:E; [reflexivity|]. exfalso.
+        assert (In r' (recs (c_program r) done)) as Hin by (rewrite E; left; reflexivity).
+        unfold recs in Hin. apply filter_In in Hin as [Hin Hb]. apply beq_eq in Hb.
+        destruct (Hcov r' Hin) as [q [Hq Hqn]]. apply (Hno q Hq). congruence. }
+      split; [|split].
+      + rewrite map_app. cbn [map]. rewrite add_to_name. cbn [p_name].
+        apply NoDup_app_intro; [exact Hnd | constructor; [intros [] | constructor] |].
+        intros x Hx [<-|[]]. apply in_map_iff in Hx as [q [Hqn Hq]]. apply (Hno q Hq Hqn).
+      + intros r' Hin. apply in_app_or in Hin as [Hin|[<-|[]]].
+        * destruct (Hcov r' Hin) as [q [Hq Hqn]]. exists q. split; [apply in_or_app; left; exact Hq | exact Hqn].
+        * eexists. split; [apply in_or_app; right; left; reflexivity | reflexivity].
+      + intros q Hq. apply in_app_or in Hq as [Hq|[<-|[]]].
+        * apply prog_ok_other; [apply Hno; exact Hq | apply Hok; exact Hq].
+        * unfold prog_ok. rewrite add_to_name. cbn [p_name]. rewrite recs_same, Hnone. cbn [app filter map].
+          repeat split.
+          -- discriminate.
+          -- cbn [ConfigGen.add_to p_counters]. unfold is_stack. destruct (0 <? c_depth r)%Z; reflexivity.
+          -- cbn [ConfigGen.add_to p_stacks]. unfold is_stack. destruct (0 <? c_depth r)%Z; reflexivity.
+          -- exists r, []. auto.
+          -- intros v. cbn [ConfigGen.add_to p_min existsb]. rewrite elig_min, orb_false_r, orb_diag. reflexivity.
+  Qed.
+
+  Lemma group_inv gcfgs : inv gcfgs (group gcfgs).
+  Proof.
+    unfold ConfigGen.group.
+    assert (forall l done ps, inv done ps -> inv (done ++ l) (fold_left (fun ps r => add_record r ps) l ps)) as P.
+    { induction l as [|r l IH]; intros done ps H; cbn [fold_left].
+      - rewrite app_nil_r. exact H.
+      - replace (done ++ r :: l) with ((done ++ [r]) ++ l) by (rewrite <- app_assoc; reflexivity).
+        apply IH. apply inv_step. exact H. }
+    apply (P gcfgs [] []). split; [constructor | split; [intros r [] | intros p []]].
+  Qed.
+End Generate.
